@@ -207,6 +207,12 @@ class SessionResult:
         self.script = []
         self.nreq = self.nedit = self.batch = 0
         self.pubc0 = {}
+        self.cm = {}             # request id -> "match" | "mismatch" (ok answers only)
+        self.mismatch = {}       # request id -> what differed
+        self.mix_possible = set()  # request ids whose own store probes differ from the workspace they were issued against
+        self.task_of_id = {}
+        self.model_mixed = set() # tasks the trace monitor found mixed
+        self.model_ans_wrong = set()  # tasks for which the spec's AnswerContent monitor fired
         self.trace_cause = {}    # doc -> why the trace oracle says its last published diagnostics are not final
         self.hung = False
 
@@ -231,6 +237,10 @@ def run_session(base, sid, seed, two_docs, rounds, mutate_trace=None):
                        stderr_path=os.path.join(root, "stderr.log"))
     state = {"changes": 0}   # didOpen + didChange notifications sent so far
     quiesce_marks = []       # (server seq up to which everything happened, {doc: tok of the syntax tree text})
+
+    def ws_state():
+        """the client's workspace right now: text id of every document (what a request sent now is issued against)"""
+        return tuple(len(d.hist) - 1 for d in docs)
 
     def fail(features, detail):
         res.problems.append((dict(features), dict(detail, sid=sid, seed=seed, two_docs=two_docs, rounds=rounds)))
@@ -263,7 +273,7 @@ def run_session(base, sid, seed, two_docs, rounds, mutate_trace=None):
             i = sess.new_id()
             m = {"jsonrpc": "2.0", "id": i, "method": "glas/syntaxTree", "params": {"textDocument": {"uri": d.uri}}}
             res.batch += 1
-            res.script.append(("req", d.name, i, "syntaxTree", res.batch, d.tok()))
+            res.script.append(("req", d.name, i, "syntaxTree", res.batch, d.tok(), m["params"], ws_state()))
             sess.send_batch([m])
             r = sess.wait(i, DEADLINE)
             if r is None:
@@ -321,7 +331,7 @@ def run_session(base, sid, seed, two_docs, rounds, mutate_trace=None):
                     i = sess.new_id()
                     ids.append(i)
                     msgs.append({"jsonrpc": "2.0", "id": i, "method": METHODS[kind], "params": make_request(rnd, d, kind)})
-                    res.script.append(("req", d.name, i, kind, res.batch, d.tok()))
+                    res.script.append(("req", d.name, i, kind, res.batch, d.tok(), msgs[-1]["params"], ws_state()))
                     res.nreq += 1
             mode = rnd.randrange(3)
             sess.send_batch(msgs, chunks=[1, 2, len(msgs)][mode], gap=[0, 0.0005, rnd.choice([0, 0.0002, 0.002])][mode])
@@ -376,14 +386,90 @@ def run_session(base, sid, seed, two_docs, rounds, mutate_trace=None):
     for s in res.script:
         if s[0] == "req" and counts.get(s[2], 0) > 1:
             fail({"what": "duplicate_response"}, {"id": s[2], "count": counts[s[2]]})
-    # ---- merge
+    # ---- answer content: every ok answer against a quiet sequential reference for the workspace it was issued against
     evs = [e for e in read_trace(trace_path) if e["seq"] > start_seq]
+    if not res.hung:
+        answer_oracle(res, root, docs, responses, evs)
+    # ---- merge
     res.lines = merge(res, docs, by_uri, evs, responses, quiesce_marks, sess)
     if mutate_trace:
         res.lines = mutate_trace(res.lines)
     if not res.problems:
         shutil.rmtree(root, ignore_errors=True)
     return res
+
+
+def canon(x, key=None):
+    """canonical form of an LSP result: the order of lists is not part of the answer (except the relative token stream)"""
+    if isinstance(x, dict):
+        return {k: canon(v, k) for k, v in sorted(x.items())}
+    if isinstance(x, list):
+        items = [canon(v) for v in x]
+        return items if key == "data" else sorted(items, key=lambda v: json.dumps(v, sort_keys=True))
+    return x
+
+
+def got_class(result):
+    return "null" if result is None else ("empty" if result in ([], {}) else "other")
+
+
+def answer_oracle(res, root, docs, responses, evs):
+    """Reference answers from a quiet server (no delays, one request in flight) that is moved from workspace state to
+    workspace state by full-text didChange.  Fills res.cm / res.mismatch / res.mix_possible."""
+    reqs = [s for s in res.script if s[0] == "req" and resp_class(responses.get(s[2])) == "ok"]
+    if not reqs:
+        return
+    by_state = {}
+    for s in reqs:
+        by_state.setdefault(s[7], []).append(s)
+    ref = lsp.Session(root, stderr_path=os.path.join(root, "ref-stderr.log"))
+    try:
+        if ref.initialize() is None:
+            raise vlib.ToolError("reference server did not answer initialize")
+        cur = None
+
+        def barrier():
+            r = ref.request("glas/syntaxTree", {"textDocument": {"uri": docs[0].uri}}, DEADLINE)
+            if r is None:
+                raise vlib.ToolError("reference server does not answer")
+        for state in sorted(by_state):
+            for k, d in enumerate(docs):
+                if cur is None:
+                    ref.did_open(d.path, d.hist[state[k]])
+                elif cur[k] != state[k]:
+                    ref.did_change(d.path, [{"text": d.hist[state[k]]}], version=1000 + state[k])
+            cur = state
+            barrier()
+            for s in by_state[state]:
+                r = ref.request(METHODS[s[3]], s[6], DEADLINE)
+                got = responses[s[2]]
+                if r is None or "error" in r:
+                    # the quiet reference itself fails on this request: no verdict
+                    continue
+                if canon(r.get("result")) == canon(got.get("result")):
+                    res.cm[s[2]] = "match"
+                else:
+                    res.cm[s[2]] = "mismatch"
+                    res.mismatch[s[2]] = {"kind": s[3], "doc": s[1], "state": list(state), "got_class": got_class(got.get("result")),
+                                          "want_class": got_class(r.get("result")), "params": s[6],
+                                          "got": json.dumps(got.get("result"))[:300], "want": json.dumps(r.get("result"))[:300]}
+    finally:
+        ref.close()
+    # which of these tasks looked at a store that was not the workspace they were issued against?  ReadVfs/ReadVfs2 bracket
+    # the handler's first read, ConvertVfs/TaskReturn its second one: all four probes must show the issue-time texts.
+    req_spawns = [e["task"] for e in evs if e["ev"] == "Spawn" and not e["label"].startswith("diag ")]
+    all_reqs = [s for s in res.script if s[0] == "req"]
+    task_of_id = {s[2]: t for s, t in zip(all_reqs, req_spawns)}
+    probes = {}
+    for e in evs:
+        if e["ev"] in ("ReadVfs", "ReadVfs2", "ConvertVfs", "TaskReturn") and e.get("files") is not None:
+            probes.setdefault(e["task"], []).append(e["files"])
+    for s in reqs:
+        t = task_of_id.get(s[2])
+        want = {d.uri: fnv(d.hist[s[7][k]]) for k, d in enumerate(docs)}
+        ps = probes.get(t, [])
+        if len(ps) < 2 or any(p.get(u) != h for p in ps for u, h in want.items()):
+            res.mix_possible.add(s[2])
 
 
 def resp_class(r):
@@ -413,6 +499,11 @@ def merge(res, docs, by_uri, evs, responses, quiesce_marks, sess):
     reqs = [s for s in client if s[0] == "req"]
     res.script = [s for s in res.script if s[0] != "quiesce"]
     task_of_id = {s[2]: t for s, t in zip(reqs, req_spawns)}
+    res.task_of_id = task_of_id
+    id_of_task = {t: i for i, t in task_of_id.items()}
+
+    def cm_of(t):
+        return res.cm.get(id_of_task.get(t), "na")
     state = {"next": 0, "open": set()}          # next message to announce; request ids of the announced batches not yet returned
 
     def announce(out):
@@ -483,10 +574,10 @@ def merge(res, docs, by_uri, evs, responses, quiesce_marks, sess):
             d = task_doc.get(t)
             out.append({"ev": "ReadVfs", "t": t, "tok": tok_for(d, e["files"]) if d else "?"})
             if t not in has_qd and final_res(t) != "cancelled":
-                out.append({"ev": "QueryEnd", "t": t, "res": "err" if final_res(t) in ("err", "none") else "ok"})
+                out.append({"ev": "QueryEnd", "t": t, "res": "err" if final_res(t) in ("err", "none") else "ok", "cm": cm_of(t)})
         elif ev == "QueryDone":
             t = e["task"]
-            out.append({"ev": "QueryEnd", "t": t, "res": "ok" if final_res(t) == "ok" else "err"})
+            out.append({"ev": "QueryEnd", "t": t, "res": "ok" if final_res(t) == "ok" else "err", "cm": cm_of(t)})
         elif ev == "ConvertVfs":
             t = e["task"]
             if final_res(t) == "ok":
@@ -555,6 +646,8 @@ def validate(out, results, name, report=True):
     out.add_tlc(t, f"TRACE Trace_Server {len(results)} sessions, {len(index)} lines")
     by_sid = {r.sid: r for r in results}
     verdict = {r.sid: "accepted" for r in results}
+    for r in results:
+        r.validated = False
     mons = set()
     for line in t.out.splitlines():
         if line.startswith('<<"MON", '):
@@ -589,12 +682,20 @@ def validate(out, results, name, report=True):
         if report:
             out.report(feats, {"sid": sid, "seed": r.seed, "line": k + 1, "event": ev, "context": r.lines[max(0, k - 12):k + 3],
                                "two_docs": getattr(r, "two_docs", None), "rounds": getattr(r, "rounds", None)})
+    for r in results:
+        r.validated = verdict[r.sid] == "accepted"
     for m in sorted(mons):
         v = json.loads(json.loads(m[len('<<"MON", '):-2]))
         r = by_sid.get(v["sess"])
         if r is None or verdict.get(v["sess"]) == "unchecked":
             continue
         base = {"sid": v["sess"], "seed": r.seed, "two_docs": getattr(r, "two_docs", None), "rounds": getattr(r, "rounds", None)}
+        if v["k"] == "mix":
+            r.model_mixed.add(v["t"])
+        if v["k"] == "ans":                      # the spec's AnswerContent monitor fired for this task
+            r.model_ans_wrong.add(v["t"])
+            if v["mixed"]:
+                r.model_mixed.add(v["t"])
         if v["k"] == "mix" and report:
             phase = "read" if v["snap"] != v["read"] else "convert"
             out.report({"what": "mixture", "phase": phase, "rk": v["rk"]}, dict(base, task=v["t"], versions=[v["snap"], v["read"], v["conv"]]))
@@ -605,6 +706,20 @@ def validate(out, results, name, report=True):
                     r.trace_cause[dn] = cause
                     out.report({"what": "diag_not_final", "cause": cause, "oracle": "trace"}, dict(base, doc=dn, state=st))
     return verdict, bad_line
+
+
+def report_answers(out, r):
+    """an ok answer that differs from the reference answer for the workspace it was issued against: explained by a
+    mixture (trace monitor, or the task's own probes of the store) = F8a; otherwise a plain violation"""
+    for i, info in sorted(r.mismatch.items()):
+        t = r.task_of_id.get(i)
+        if getattr(r, "validated", False) and t not in r.model_ans_wrong:
+            raise vlib.ToolError(f"session {r.sid}: the driver saw a content mismatch for task {t} that Trace_Server's monitor did not print")
+        detail = dict(info, sid=r.sid, seed=r.seed, two_docs=getattr(r, "two_docs", None), rounds=getattr(r, "rounds", None), task=t)
+        if t in r.model_mixed or i in r.mix_possible:
+            out.report({"what": "answer_content", "explained_by": "mixture", "kind": info["kind"]}, detail)
+        else:
+            out.report({"what": "answer_content", "kind": info["kind"], "got_class": info["got_class"]}, detail)
 
 
 def run_sessions(out, seed, sids, tier, name, jobs=8, mutate_trace=None, report=True):
@@ -767,6 +882,8 @@ def run(out, tier, seed):
                 if f.get("oracle") == "content" and dt.get("doc") in r.trace_cause:
                     f = dict(f, cause=r.trace_cause[dt["doc"]])
                 out.report(f, dt)
+            report_answers(out, r)
+        tot["answers"] = tot.get("answers", 0) + sum(len(r.cm) for r in results)
         tot["lines"] += sum(len(r.lines) for r in results)
         tot["req"] += sum(r.nreq for r in results)
         tot["edit"] += sum(r.nedit for r in results)
@@ -790,13 +907,15 @@ def run(out, tier, seed):
     out.cov["evaluations"] += n_req + n_edit
     out.cov["distinct_nontrivial"] += n_acc
     out.cov["trace_lines"] = n_lines
+    out.cov["ok_answers_compared_with_reference"] = tot.get("answers", 0)
     out.cov["exhaustive"] = False
     out.cov["rule"] = ("%d seeded sessions of the real server (GLAS_VERIF_SCHED delays, GLAS_VERIF_TRACE events): 6-10 rounds, each a shuffled "
                        "burst of 0-3 didChange and 1-8 requests (11 kinds) written in 1, 2 or n chunks on 1-2 documents of 2-5 kB; %d requests, "
                        "%d edits, %d merged trace lines validated by TLC against Trace_Server (probed lock state / store content at every "
                        "event, no apply completes while a snapshot lives, one response per request, text convergence at quiescence; "
                        "NoMixture and diagnostics provenance reported by monitors); plus the driver's own checks (deadline %ds per request, "
-                       "publishDiagnostics stream = hook stream, diagnostics content oracle, exit status) and one F18 probe (24 simultaneous "
+                       "publishDiagnostics stream = hook stream, diagnostics content oracle, every ok answer compared with a quiet sequential "
+                       "reference server for the workspace it was issued against, exit status) and one F18 probe (24 simultaneous "
                        "requests). non-trivial = accepted sessions" % (nsess, n_req, n_edit, n_lines, int(DEADLINE)))
     out.assumptions += ["hook events carry probed state; their global sequence number orders them; TaskReturn is logged after the snapshot "
                         "was dropped, so the trace spec lets T_Return happen earlier than its line",
@@ -818,4 +937,5 @@ def replay(out, path):
         if f.get("oracle") == "content" and dt.get("doc") in r.trace_cause:
             f = dict(f, cause=r.trace_cause[dt["doc"]])
         out.report(f, dt)
+    report_answers(out, r)
     out.cov["traces_validated_against_impl"] += 1
